@@ -376,7 +376,9 @@ Theorem C20_no_panic O p o : wf_pool p = true -> fst (step O p o) <> Panic.
 Proof.
   intros W. destruct o; unfold step; try solve [np_step W].
   (* OFilter *)
-  destruct (nth_opt p f); cbn; discriminate.
+  - destruct (nth_opt p f); cbn; discriminate.
+  (* OIoFail *)
+  - unfold observe, with_frame. cbn [fst]. destruct (nth_opt p f); [|discriminate]. destruct reported; discriminate.
 Qed.
 
 (* every outcome on a well-formed pool is a value or an error; an error changes nothing *)
@@ -569,7 +571,7 @@ Definition handles (o : op) : list nat :=
   | OMultiSelect f _ | OSort f _ _ | OShift f _ | ODedup f _ _ _ | OApply f _ _ | ODescribe f
   | OResample f _ _ _ | OGroupAgg f _ _ _ | OCsvRoundTrip f | OGroupby f _ | OToCSV f | ORow f _
   | OColumnNames f | ONrows f | ONcols f | OAgg f _ | OString f | OSelect f _ | OColAt f _ _ | OSeries f _ _
-  | OPlot _ f _ _ _ _ | OGroupbyOther f _ | OAppendRow f _ | ODropRow f _ | OFillNa f _
+  | OPlot _ f _ _ _ _ | OGroupbyOther f _ | OIoFail f _ | OAppendRow f _ | ODropRow f _ | OFillNa f _
   | ODropNa f | OAstype f _ _ | ODatetime f _ _ | ORename f _ _ | OAddColumn f _ _
   | ODropColumn f _ | OSetCell f _ _ _ | ODedupInplace f _ _ => [f]
   | OJoin _ f g _ | OAdd f g _ => [f; g]
